@@ -73,10 +73,10 @@ def observe(field, font, bdir, out_path, cfg, glyphs):
 
     name = font["name"]
     if field == "family":
-        return name.getDebugName(1)
+        return (name.getDebugName(1), name.getDebugName(4), name.getDebugName(6))
     if field in ("version_major", "version_minor"):
         rev = round(font["head"].fontRevision, 3)
-        return int(rev) if field == "version_major" else round((rev - int(rev)) * 1000)
+        return (int(rev) if field == "version_major" else round((rev - int(rev)) * 1000), name.getDebugName(5))
     if field == "upem":
         return font["head"].unitsPerEm
     if field == "ascender":
@@ -133,10 +133,10 @@ def expected(field, value, base, glyphs, bdir=None):
     c = dict(DEFAULTS)
     c.update(base)
     c[field] = value
-    if field == "family":
-        return value
+    if field == "family":  # family name, full name, PostScript name (style Regular)
+        return (value, value + " Regular", value.replace(" ", "") + "-Regular")
     if field in ("version_major", "version_minor"):
-        return value
+        return (value, "Version %d.%03d" % (c["version_major"], c["version_minor"]))
     if field == "upem":
         return value
     if field == "ascender":
